@@ -119,8 +119,7 @@ theorem construct_effect (p : Doc) (r : Decoded) (h : construct p = .ok r) :
   unfold construct at h
   split at h
   · cases h
-  · simp only at h
-    split at h
+  · split at h
     · simp only [Except.ok.injEq] at h; rw [← h]
     · cases h
 
@@ -148,8 +147,7 @@ theorem construct_context (p : Doc) (r : Decoded) (h : construct p = .ok r) :
   unfold construct at h
   split at h
   · cases h
-  · simp only at h
-    split at h
+  · split at h
     · simp only [Except.ok.injEq] at h; subst h; rfl
     · cases h
 
@@ -250,11 +248,12 @@ def toDoc (r : Decoded) (typ : PyVal) : Doc :=
 whose effect is truthy and whose context is a dictionary is read back from the document it was
 written as with exactly its uid, effect, description, elements and context — and the stored
 `type` plays no role -/
-theorem policy_roundtrip_partial (r : Decoded) (typ : PyVal) (ks : List PyVal)
-    (hc : r.context = .list ks) (he : truthy r.effect = true) : fromDoc (toDoc r typ) = .ok r := by
+theorem policy_roundtrip_partial (r : Decoded) (typ : PyVal)
+    (hc : isDictLike r.context = true) (he : truthy r.effect = true) : fromDoc (toDoc r typ) = .ok r := by
   obtain ⟨uid, eff, desc, subj, res, act, ctx⟩ := r
   simp only at hc he
-  subst hc
-  simp [fromDoc, toDoc, Serialize.has, Serialize.get, Serialize.put, Serialize.erase, lookup, construct, knownArgs, he]
+  cases ctx <;> simp [isDictLike] at hc <;>
+    simp [fromDoc, toDoc, Serialize.has, Serialize.get, Serialize.put, Serialize.erase, lookup, construct, knownArgs, he,
+      isDictLike, ctxOf]
 
 end Vakt.C09
